@@ -419,3 +419,8 @@ for _p in ("C01", "C07", "C12"):
 # C11), and the ban of an offending responder has to last as configured (filter histories with unban_nodes_check)
 SPECS["C11"]["harness"].append({"component": "rpcc", "args": [], "quick": 400, "thorough": 4000, "correspondence": False})
 SPECS["C11"]["harness"].append({"component": "limiter", "args": ["--part", "fil"], "quick": 40, "thorough": 400, "correspondence": False})
+
+# end-to-end runs: real nodes on loopback UDP sockets (monitor-only): the search for a concrete failing input when
+# constructor parity or a correspondence breaks in the real constructors / socket tasks
+for _p in ("C03", "C04", "C09", "C10", "C12", "C13", "C14", "C17", "C20"):
+    SPECS[_p]["harness"].append({"component": "e2e", "args": ["--focus", _p.lower()], "quick": 24, "thorough": 120, "correspondence": False})
